@@ -157,8 +157,8 @@ Inductive instr :=
 | IRcvChk (c : chan) (items : list item)  (* received: `if self.will_close or self.close_when_flushed: return False` *)
 | IRcvLoop (c : chan) (items : list item) (* received: top of one iteration up to the send_continue test *)
 | IRcvPost (c : chan) (it : item) (items : list item) (* received: `if self.request.completed:` ... end of iteration *)
-| IHwChoose (c : chan)          (* handle_write: `if not self.requests` / `elif total_outbufs_len >= send_bytes`: flush = _flush_some_if_lockable / None *)
-| IHwNotify (c : chan)          (* _flush_some_if_lockable: `if total_outbufs_len < outbuf_high_watermark: notify()` *)
+| IHwChoose (c : chan)          (* handle_write: `if not self.requests` / `elif total_outbufs_len >= send_bytes or total_outbufs_len > outbuf_high_watermark`: flush = _flush_some_if_lockable / None *)
+| IHwNotify (c : chan)          (* _flush_some_if_lockable: `if total_outbufs_len <= outbuf_high_watermark: notify()` *)
 | IHwTail (c : chan)            (* handle_write: close_when_flushed / will_close tests *)
 | IExpt (c : chan)              (* handle_expt_event: `... if self.socket is not None else 1` *)
 | IExptCall (c : chan)          (* self.socket.getsockopt(SOL_SOCKET, SO_ERROR) *)
@@ -189,11 +189,13 @@ Inductive instr :=
 | IAcqR (c : chan)              (* requests_lock.acquire() *)
 | IRelR (c : chan)
 (* -- worker: service / write_soon *)
-| ISvcStart (c : chan)          (* service: request = self.requests[0]; `if self.connected:` *)
+| ISvcStart (c : chan)          (* service: request = self.requests[0]; `if self.connected and ...` *)
+| ISvcChkWc (c : chan)          (* ... `and not self.will_close:` (since /repo 64d926d) *)
 | IApp (c : chan)               (* task.service(): the application's next action *)
 | IErrTask (c : chan)           (* service: `if not task.wrote_header:` ErrorTask(...).service() / else close_on_finish *)
 | IWsChk1 (c : chan)            (* write_soon: `if not self.connected: raise ClientDisconnected` *)
 | IFbh (c : chan)               (* _flush_outbufs_below_high_watermark: `if total_outbufs_len > high_watermark:` *)
+| IFbhChk (c : chan)            (* under the lock: `if not self.connected: return` *)
 | IFbhAfter (c : chan)          (* `if exception: pull_trigger; wait; return` *)
 | IFbhLoop (c : chan)           (* `while connected and total_outbufs_len > high_watermark: pull_trigger; wait` *)
 | IWsChk2 (c : chan)            (* write_soon, under the lock: `if not self.connected: raise ClientDisconnected` *)
@@ -609,11 +611,12 @@ Definition exec (g : cfg) (t : tid) (i : instr) (a : answer) (s : state) : resul
     (* since /repo 8bcf05e both branches flush through _flush_some_if_lockable (try-acquire, flush, notify,
        release): the I/O thread never flushes without outbuf_lock *)
     if nreq x =? 0 then Norm s [ITryAcqO c; KFlushExc c; IHwTail c] []
-    else if (Z.of_nat (send_bytes g) <=? pend x)%Z then Norm s [ITryAcqO c; KFlushExc c; IHwTail c] []
+    else if (Z.of_nat (send_bytes g) <=? pend x)%Z || (Z.of_nat (hw g) <? pend x)%Z   (* the second disjunct since /repo daf1a85 *)
+         then Norm s [ITryAcqO c; KFlushExc c; IHwTail c] []
     else Norm s [IHwTail c] []
   | IHwNotify c =>
     let x := getc s c in
-    if (pend x <? Z.of_nat (hw g))%Z then Norm s [INotifyO c] [] else Norm s [] []
+    if (pend x <=? Z.of_nat (hw g))%Z then Norm s [INotifyO c] [] else Norm s [] []   (* `<=` since /repo 6aba4bf *)
   | IHwTail c =>
     let x := getc s c in
     let x1 := if cwf x && (pend x =? 0)%Z then upd_flags x true false else x in
@@ -743,8 +746,12 @@ Definition exec (g : cfg) (t : tid) (i : instr) (a : answer) (s : state) : resul
   (* ---------------- worker ---------------- *)
   | ISvcStart c =>
     let x := getc s c in
-    if conn x then Norm (setth s t (set_lcof me false)) [IApp c; KSvcTry c; ISvcEnd c] []
+    if conn x then Norm s [ISvcChkWc c] []
     else Norm (setth s t (set_lcof me true)) [ISvcEnd c] []
+  | ISvcChkWc c =>
+    let x := getc s c in
+    if wc x then Norm (setth s t (set_lcof me true)) [ISvcEnd c] []
+    else Norm (setth s t (set_lcof me false)) [IApp c; KSvcTry c; ISvcEnd c] []
   | IApp c =>
     match a with
     | AApp (AppWrite n) => if 0 <? n then Norm s (write_soon c n ++ [IApp c]) [LApp c (AppWrite n)] else Blocked
@@ -763,8 +770,11 @@ Definition exec (g : cfg) (t : tid) (i : instr) (a : answer) (s : state) : resul
   | IFbh c =>
     let x := getc s c in
     if (Z.of_nat (hw g) <? pend x)%Z then
-      Norm (setth s t (set_lexc me false)) ([IAcqO c] ++ flush_some c false ++ [KFlushExc c; IFbhAfter c; KRelO c]) []
+      Norm (setth s t (set_lexc me false)) [IAcqO c; IFbhChk c; KRelO c] []
     else Norm s [] []
+  | IFbhChk c =>
+    (* since /repo 7fa6a60: closed between the unlocked check and here: nothing to flush, nobody to wake us *)
+    if conn (getc s c) then Norm s (flush_some c false ++ [KFlushExc c; IFbhAfter c]) [] else Norm s [] []
   | IFbhAfter c =>
     if lexc me then Norm s [IPull c; IWaitO c] []       (* pull_trigger(); wait(); return *)
     else Norm s [IFbhLoop c] []
